@@ -23,7 +23,7 @@ fn strip_refs(slots: &Sx) -> Sx {
           match tag {
             0 | 1 | 7 | 8 => { if e.len() > 2 { e[2] = Sx::L(vec![]); } }
             4 => { if e.len() > 3 { e[3] = Sx::L(vec![]); } }
-            5 | 6 => { if e.len() > 2 { e[2] = Sx::A(0); } }
+            5 | 6 | 9 => { if e.len() > 2 { e[2] = Sx::A(0); } }
             _ => {}
           }
           let mut v2 = v.clone();
